@@ -45,6 +45,12 @@ type checkFn func(rep *Report, tier string, seed int64)
 
 var checks = map[string]checkFn{}
 
+// enoughDivergences: stop exploring once model and implementation have disagreed on more than n
+// cases AND a concrete failing input was found — without one the search goes on (up to 5n cases).
+func enoughDivergences(rep *Report, n int) bool {
+	return (len(rep.Divergences) > n && len(rep.Violations) > 0) || len(rep.Divergences) > 5*n
+}
+
 func main() {
 	log.SetOutput(io.Discard) // rend logs through the global logger
 	realStdout := os.Stdout
